@@ -9,6 +9,7 @@ functions - decided almost completely).
   PAIR     marker constant identical on both sides and equal to the spec's C3 01; fingerprint is 8 bytes
 The fingerprint value is C08's, datum bytes C01/C02, slice/reader equivalence C11.
 """
+import re
 from ..lib import *
 from ..core import short_loc, op_place, const_int
 from .c03 import fn_by_label
@@ -129,6 +130,18 @@ def run(ctx):
                         ro = origin(ch, c['args'][1])
                         if o.params() == {1}:
                             rng = tuple(sorted(x for x in ro.consts() if isinstance(x, int)))
+                            if not rng and 'len' in ro.flags and not ro.has_arith():
+                                # the bound is the length of a constant byte string (`MARKER.len()`)
+                                bs_ = [x for x in ro.consts() if isinstance(x, str) and x.startswith('bytes ')]
+                                if len(bs_) == 1 and len(ro.consts()) == 1:
+                                    rng = (len(bs_[0][6:]) // 2,)
+                            # `header[..k]` / `header[k..]` on the 10-byte header: the missing end is the array's
+                            kinds_ = {a[1].rsplit('::', 1)[-1] for a in ro.atoms if a[0] == 'agg'}
+                            hl_ = re.search(r'\[u8; (\d+)\]', ch.local_ty(1) or '')
+                            if len(rng) == 1 and kinds_ == {'RangeTo'}:
+                                rng = (0, rng[0])
+                            elif len(rng) == 1 and kinds_ == {'RangeFrom'} and hl_:
+                                rng = (rng[0], int(hl_.group(1)))
             # the same two ranges obtained with `header.split_at(k)`: .0 is 0..k, .1 is k..10
             via_split = None
             if rng is None:
@@ -159,6 +172,13 @@ def run(ctx):
         if m and m[0] is not None:
             ints = sorted(x for x in m[0].consts() if isinstance(x, int))
             raw = [str(x)[6:] for x in m[0].consts() if isinstance(x, str) and str(x).startswith('bytes ')]
+            for x in m[0].consts():
+                # a named constant (`const MARKER: [u8; 2] = [0xC3, 0x01]`): its evaluated value
+                if isinstance(x, str) and x.startswith('named '):
+                    cv = (f.consts.get(x[6:]) or {}).get('value') or {}
+                    hx = cv.get('bytes') or cv.get('mem') or cv.get('ptr_bytes')
+                    if hx:
+                        raw.append(hx)
             m_ok = (ints == [1, 195] or raw == ['c301']) and m[1] and not m[0].params()
         ctx.ob('CHECK', 'check_header/marker', m_ok, short_loc(ch.span), 'bytes 0..2 compared with C3 01, mismatch => Err: %s' % m_ok)
         fp_ok = False
